@@ -207,8 +207,13 @@ impl CharProperty {
             })?;
         let mut cate_idset = base_cinfo.cate_idset();
         for target in targets {
-            let target_id = cate_map.get(target.as_ref()).unwrap();
-            let cinfo = cate2info.get(target_id).unwrap();
+            let cinfo = cate_map
+                .get(target.as_ref())
+                .and_then(|target_id| cate2info.get(target_id))
+                .ok_or_else(|| {
+                    let msg = format!("Undefined category: {}", target.as_ref());
+                    VibratoError::invalid_format("char.def", msg)
+                })?;
             cate_idset |= 1 << cinfo.base_id();
         }
         base_cinfo.reset_cate_idset(cate_idset);
